@@ -65,6 +65,7 @@ type VC struct {
 	activeBound []*Term
 	curLoopA    *Term
 	pendingTyping []pendingType
+	pendingRoles  []string
 }
 
 func (vc *VC) note(format string, a ...any) {
